@@ -252,3 +252,40 @@ OUTSIDE = ["the real executors and the OS schedule (the statement 'for any relat
 STUBS = ["ModelExecutor for ThreadPoolExecutor / ProcessPoolExecutor: a task runs at a symbolic event between submit and result(); "
          "exceptions surface in result(); map yields in submission order", "ModelFS + token handler (reads return opaque tokens)"]
 ASSUMPTIONS = ["tasks are independent (the mapped function has no shared state)"]
+
+
+# ---- output= : results written through another fileset ------------------------------------------------
+@harness("C10.output", cases=lambda tier: [(2, 1), (3, 2)], expect=lambda c: ["each-result-written-under-the-name-of-its-file"])
+def k_output(ctx):
+    """map(..., output=fileset): the return value of every task is written to the file whose name the
+    output template generates from the *input* file's times and attributes; the result list says
+    True / False (function returned None) per file, in order."""
+    n, workers = ctx.case
+    mfs, h, fset, paths = _setup(ctx, n)
+    hout = TokenHandler(mfs, "out")
+    out = make_fileset(ctx, "/out/{year}/{doy}/res_{hour}{minute}.bin", mfs, handler=hout, name="out")
+    skip = [bool(ctx.bool("task_%d_returns_none" % i)) for i in range(n)]
+
+    def func(content, info):
+        i = paths.index(info.path)
+        return None if skip[i] else ("result", i, content)
+    ex = ModelExecutor(ctx, horizon=1)
+    with _env(ctx, ex):
+        res = fset.map(func, on_content=True, pass_info=True, output=out, max_workers=workers, worker_type="thread")
+    ctx.check("each-result-written-under-the-name-of-its-file", res == [not s for s in skip], detail=repr(res))
+    for i, p in enumerate(paths):
+        hour = i * 2
+        name = "/out/2020/001/res_%02d00.bin" % hour
+        if skip[i]:
+            ctx.check("each-result-written-under-the-name-of-its-file", name not in mfs.files, detail="written although None")
+        else:
+            want = ("written-by-out", ("result", i, ("data", ("content", "a", i), ())), ())
+            ctx.check("each-result-written-under-the-name-of-its-file", mfs.files.get(name) == want,
+                      detail="%s holds %r" % (name, mfs.files.get(name)))
+    extra = [p for p in mfs.files if p.startswith("/out/")]
+    ctx.check("nothing-else-written", len(extra) == sum(1 for s in skip if not s), detail=repr(extra))
+
+
+PLAN["quick"]["harnesses"].append("C10.output")
+PLAN["thorough"]["harnesses"].append("C10.output")
+OUTSIDE[:] = [o for o in OUTSIDE if not o.startswith("output=")]
